@@ -31,7 +31,7 @@ Local Open Scope Z_scope.
    a loop of that body.  The second condition holds for every C++ function; it is there because the two semantics differ on a
    stray break (RefineSeq.stray_break_exec / stray_break_machine: exec reads it as a void return, the machine as UB).
    [wf_ok] is [seq_ok] without the condition on primitives. *)
-Theorem seq_machine_agrees : forall prog vt fuel st s out s',
+Theorem SRC_seq_machine_agrees : forall prog vt fuel st s out s',
   seq_ok prog fuel st = true ->
   exec prog vt fuel st s = Ok (out, s') ->
   normal_outcome out = true ->                      (* finished by falling through, not by break / return out of st *)
@@ -44,9 +44,9 @@ Theorem seq_machine_agrees : forall prog vt fuel st s out s',
     = Ok ({| cs_sh := shared_of s';
              cs_thr := [{| ct_cur := SSkip; ct_k := KStop; ct_loc := loc s'; ct_pre := pre s; ct_st := TDone |}]; cs_mx := [] |}, [(14, 0, 0)]).
 Proof. exact seq_machine_agrees_proof. Qed.
-Print Assumptions seq_machine_agrees.
+Print Assumptions SRC_seq_machine_agrees.
 
-Theorem seq_machine_agrees_any : forall prog vt fuel sf st s out s',
+Theorem SRC_seq_machine_agrees_any : forall prog vt fuel sf st s out s',
   wf_ok prog sf st = true ->
   exec prog vt fuel st s = Ok (out, s') ->
   normal_outcome out = true ->
@@ -60,15 +60,15 @@ Theorem seq_machine_agrees_any : forall prog vt fuel sf st s out s',
                   cs_thr := set_nth_t tid {| ct_cur := SSkip; ct_k := KStop; ct_loc := loc s'; ct_pre := pre s; ct_st := TDone |} thr;
                   cs_mx := mx |}, evs ++ [(14, 0, 0)]).
 Proof. exact seq_machine_agrees_gen. Qed.
-Print Assumptions seq_machine_agrees_any.
+Print Assumptions SRC_seq_machine_agrees_any.
 
 (* the check holds for verification, for every thread count and file size (and fails for encryption and decryption, which
    start worker threads: RefineSeqVerify.decrypt_not_seq_ok, encrypt_not_seq_ok) *)
-Theorem verify_is_seq_ok : forall T cm hm ne fsize, seq_ok whole_prog 40 (whole_main WVer T cm hm ne fsize) = true.
+Theorem SRC_verify_is_seq_ok : forall T cm hm ne fsize, seq_ok whole_prog 40 (whole_main WVer T cm hm ne fsize) = true.
 Proof. exact verify_seq_ok. Qed.
-Print Assumptions verify_is_seq_ok.
+Print Assumptions SRC_verify_is_seq_ok.
 
-Theorem verify_file_is_sequential : forall c hbuf T F key rnd fuel out s',
+Theorem SRC_verify_file_is_sequential : forall c hbuf T F key rnd fuel out s',
   exec whole_prog [] fuel (whole_main WVer T (-1) (-1) true (Z.of_nat (List.length F))) (whole_state c hbuf T (-1) (-1) true F key []) = Ok (out, s') ->
   match src_verify_file c hbuf T F key rnd with
   | SOk (b, o, i, steps) =>
@@ -79,11 +79,11 @@ Theorem verify_file_is_sequential : forall c hbuf T F key rnd fuel out s',
   | SErr w => w = "out of fuel"%string
   end.
 Proof. exact verify_file_is_sequential_proof. Qed.
-Print Assumptions verify_file_is_sequential.
+Print Assumptions SRC_verify_file_is_sequential.
 
 (* in particular the scheduler seed does not matter *)
-Theorem verify_file_seed_independent : forall c hbuf T F key fuel out s',
+Theorem SRC_verify_file_seed_independent : forall c hbuf T F key fuel out s',
   exec whole_prog [] fuel (whole_main WVer T (-1) (-1) true (Z.of_nat (List.length F))) (whole_state c hbuf T (-1) (-1) true F key []) = Ok (out, s') ->
   forall rnd rnd', src_verify_file c hbuf T F key rnd = src_verify_file c hbuf T F key rnd'.
 Proof. exact verify_file_seed_independent_proof. Qed.
-Print Assumptions verify_file_seed_independent.
+Print Assumptions SRC_verify_file_seed_independent.
